@@ -411,6 +411,70 @@ def unroll_literal_loops(tree, max_items=16, max_body=4):
                 return copy.deepcopy(self.m[node.id])
             return node
 
+    def beta(node):
+        # (lambda v: B)(a)  ->  B[v := a]   (single use of v, or a call-free argument)
+        class Beta(ast.NodeTransformer):
+            def visit_Call(self, n):
+                self.generic_visit(n)
+                f_ = n.func
+                if isinstance(f_, ast.Lambda) and not n.keywords and not any(isinstance(a, ast.Starred) for a in n.args):
+                    la = f_.args
+                    if not (la.vararg or la.kwarg or la.kwonlyargs or la.defaults or la.posonlyargs) and len(la.args) == len(n.args):
+                        m = {a.arg: v for a, v in zip(la.args, n.args)}
+                        uses = {k: sum(1 for x in ast.walk(f_.body) if isinstance(x, ast.Name) and x.id == k) for k in m}
+                        if all(uses[k] <= 1 or not any(isinstance(x, ast.Call) for x in ast.walk(v)) for k, v in m.items()) and \
+                                not any(isinstance(x, (ast.Lambda, ast.ListComp, ast.SetComp, ast.DictComp, ast.GeneratorExp)) for x in ast.walk(f_.body)):
+                            return Sub(m).visit(copy.deepcopy(f_.body))
+                return n
+        return Beta().visit(node)
+
+    PURE_BUILTINS = {'len', 'int', 'float', 'str', 'abs', 'min', 'max', 'bool', 'round'}
+
+    def pure_fn_body(e):
+        return not any(isinstance(n, (ast.Yield, ast.YieldFrom, ast.Await, ast.NamedExpr, ast.Lambda)) or
+                       (isinstance(n, ast.Call) and not ((isinstance(n.func, ast.Attribute) and n.func.attr in PURE_METHODS | {'split', 'rsplit', 'replace'}) or
+                                                         (isinstance(n.func, ast.Name) and n.func.id in PURE_BUILTINS))) for n in ast.walk(e))
+
+    def search_loop(s):
+        """`for T in <literal rows>: if C: S..; break` [else: E]  ->  if C[row1]: S[row1] elif C[row2]: S[row2] ... else: E"""
+        if not (isinstance(s, ast.For) and isinstance(s.iter, (ast.List, ast.Tuple)) and 1 < len(s.iter.elts) <= max_items and len(s.body) == 1):
+            return None
+        g = s.body[0]
+        if not (isinstance(g, ast.If) and not g.orelse and len(g.body) >= 2 and isinstance(g.body[-1], ast.Break)):
+            return None
+        inner = g.body[:-1]
+        if any(isinstance(n, (ast.Break, ast.Continue, ast.For, ast.While, ast.Try, ast.With, ast.FunctionDef, ast.Yield, ast.YieldFrom)) for b in inner for n in ast.walk(b)):
+            return None
+        tg = s.target
+        names = [tg.id] if isinstance(tg, ast.Name) else [e.id for e in tg.elts] if isinstance(tg, ast.Tuple) and all(isinstance(e, ast.Name) for e in tg.elts) else None
+        if names is None:
+            return None
+        if isinstance(tg, ast.Tuple) and not all(isinstance(e, (ast.Tuple, ast.List)) and len(e.elts) == len(names) for e in s.iter.elts):
+            return None
+        stored = {n.id for b in s.body for n in ast.walk(b) if isinstance(n, ast.Name) and isinstance(n.ctx, ast.Store)}
+        if stored & set(names):
+            return None
+        # a column of functions (lambdas / plain names) is fine when the loop only ever calls it
+        called_only = {nm_ for nm_ in names if all(
+            any(isinstance(c, ast.Call) and c.func is n for c in ast.walk(g)) for n in ast.walk(g) if isinstance(n, ast.Name) and n.id == nm_)}
+        rows = []
+        for e in s.iter.elts:
+            cols = [e] if isinstance(tg, ast.Name) else list(e.elts)
+            for nm_, c in zip(names, cols):
+                if isinstance(c, ast.Lambda) and nm_ in called_only and pure_fn_body(c.body):
+                    continue
+                if not simple(c):
+                    return None
+            rows.append(dict(zip(names, cols)))
+        chain = list(s.orelse)
+        for m in reversed(rows):
+            test = beta(Sub(m).visit(copy.deepcopy(g.test)))
+            body_ = [beta(Sub(m).visit(copy.deepcopy(b))) for b in inner]
+            node_ = ast.copy_location(ast.If(test=test, body=body_, orelse=chain), s)
+            chain = [node_]
+        ast.fix_missing_locations(chain[0])
+        return chain[0]
+
     def rewrite(body):
         nonlocal count
         out = []
@@ -423,6 +487,11 @@ def unroll_literal_loops(tree, max_items=16, max_body=4):
             if isinstance(s, ast.Try):
                 for h in s.handlers:
                     h.body = rewrite(h.body)
+            sl = search_loop(s)
+            if sl is not None:
+                out.append(sl)
+                count += 1
+                continue
             guards = []
             rest_body = list(s.body) if isinstance(s, ast.For) else []
             while rest_body and isinstance(rest_body[0], ast.If) and not rest_body[0].orelse and len(rest_body[0].body) == 1 and isinstance(rest_body[0].body[0], ast.Continue):
@@ -782,6 +851,29 @@ def any_to_loop_and_counters_to_enumerate(tree):
                 count[0] += 1
                 i += 1
                 continue
+            # N27b: `return [not] any(gen(...))` over a generator FUNCTION of this module (a lazily evaluated chain of checks): the early-exit loop
+            if isinstance(s, ast.Return) and s.value is not None:
+                neg, v = False, s.value
+                if isinstance(v, ast.UnaryOp) and isinstance(v.op, ast.Not):
+                    neg, v = True, v.operand
+                if isinstance(v, ast.Call) and isinstance(v.func, ast.Name) and v.func.id in ('any', 'all') and len(v.args) == 1 and not v.keywords \
+                        and isinstance(v.args[0], ast.Call) and isinstance(v.args[0].func, ast.Name) and v.args[0].func.id in gen_functions:
+                    is_any = v.func.id == 'any'
+                    k_ = count[0]
+                    var = f'lazy_check_{k_}'
+                    test = ast.Name(id=var, ctx=ast.Load()) if is_any else ast.UnaryOp(op=ast.Not(), operand=ast.Name(id=var, ctx=ast.Load()))
+                    # any: found -> True (negated: False); all: counter-example -> False (negated: True)
+                    hit = (is_any != neg)
+                    new = [ast.For(target=ast.Name(id=var, ctx=ast.Store()), iter=v.args[0],
+                                   body=[ast.If(test=test, body=[ast.Return(value=ast.Constant(value=hit))], orelse=[])], orelse=[]),
+                           ast.Return(value=ast.Constant(value=not hit))]
+                    for n_ in new:
+                        ast.copy_location(n_, s)
+                        ast.fix_missing_locations(n_)
+                    out.extend(new)
+                    count[0] += 1
+                    i += 1
+                    continue
             # N28
             nxt = stmts[i + 1] if i + 1 < len(stmts) else None
             if isinstance(s, ast.Assign) and len(s.targets) == 1 and isinstance(s.targets[0], ast.Name) and isinstance(s.value, ast.Constant) and s.value.value == 0 \
@@ -811,10 +903,142 @@ def any_to_loop_and_counters_to_enumerate(tree):
             out.append(s)
             i += 1
         return out
+    gen_functions = {n.name for n in getattr(tree, 'body', []) if isinstance(n, ast.FunctionDef) and has(n.body, (ast.Yield, ast.YieldFrom), stop=(ast.FunctionDef, ast.AsyncFunctionDef, ast.ClassDef, ast.Lambda))}
     for node in ast.walk(tree):
         if isinstance(node, (ast.FunctionDef, ast.AsyncFunctionDef)):
             node.body = rec(node.body, node)
     return count[0]
+
+
+def hoist_loop_exit_assignments(tree):
+    """N31  `for ..: ...; T = E; break ... else: T = E`  ==  `for ..: ...; break`, then `T = E` after the loop - when every break of the loop is
+    directly preceded by the same assignment as the one that forms the else block and E is a plain name / attribute chain / constant (reading it at
+    the break and right after the loop gives the same object).  This is the shape a helper with `return E` inside and after its loop takes once
+    it is inlined."""
+    count = 0
+
+    def simple(e):
+        while isinstance(e, ast.Attribute):
+            e = e.value
+        return isinstance(e, (ast.Name, ast.Constant))
+
+    def own_breaks(stmts, acc, parent_blocks):
+        for blk in parent_blocks:
+            for k, st in enumerate(blk):
+                if isinstance(st, ast.Break):
+                    acc.append((blk, k))
+                elif isinstance(st, (ast.For, ast.While, ast.FunctionDef, ast.AsyncFunctionDef, ast.ClassDef)):
+                    # breaks in the else block of an inner loop still belong to the outer one
+                    if isinstance(st, (ast.For, ast.While)):
+                        own_breaks(None, acc, [st.orelse])
+                else:
+                    subs = [getattr(st, f) for f in ('body', 'orelse', 'finalbody') if isinstance(getattr(st, f, None), list)]
+                    if isinstance(st, ast.Try):
+                        subs += [h.body for h in st.handlers]
+                    if hasattr(ast, 'Match') and isinstance(st, ast.Match):
+                        subs += [c.body for c in st.cases]
+                    own_breaks(None, acc, subs)
+
+    for par in list(ast.walk(tree)):
+        for fld in ('body', 'orelse', 'finalbody'):
+            blk = getattr(par, fld, None)
+            if not isinstance(blk, list):
+                continue
+            i = 0
+            while i < len(blk):
+                lp = blk[i]
+                i += 1
+                if not (isinstance(lp, (ast.For, ast.While)) and len(lp.orelse) == 1 and isinstance(lp.orelse[0], ast.Assign)):
+                    continue
+                asg = lp.orelse[0]
+                if not (len(asg.targets) == 1 and isinstance(asg.targets[0], ast.Name) and simple(asg.value)):
+                    continue
+                brs = []
+                own_breaks(None, brs, [lp.body])
+                want = ast.dump(asg)
+                if not brs or not all(k > 0 and isinstance(b[k - 1], ast.Assign) and ast.dump(b[k - 1]) == want for b, k in brs):
+                    continue
+                for b, k in sorted(brs, key=lambda bk: -bk[1]):
+                    del b[k - 1]
+                lp.orelse = []
+                blk.insert(i, asg)
+                count += 1
+    return count
+
+
+def counting_while_to_for(tree):
+    """N32  `i = A; while i <= B: BODY; i += 1`  ==  `for i in range(A, B + 1): BODY` (also `<` -> range(A, B)) - when BODY neither assigns i nor
+    the names B reads, has no continue (it would skip the increment), no break, the loop has no else block, B is call-free or only calls pure
+    numeric builtins (it is re-evaluated per round in the while form) and i is not read after the loop (the final value of the counter differs)."""
+    count = 0
+    PURE = {'int', 'float', 'len', 'abs', 'min', 'max', 'round', 'floor', 'ceil'}
+
+    def pure(e):
+        for n in ast.walk(e):
+            if isinstance(n, ast.Call):
+                d = n.func.attr if isinstance(n.func, ast.Attribute) else n.func.id if isinstance(n.func, ast.Name) else None
+                if d not in PURE:
+                    return False
+            if isinstance(n, (ast.Yield, ast.YieldFrom, ast.Await, ast.NamedExpr, ast.Lambda)):
+                return False
+        return True
+
+    for fn in [n for n in ast.walk(tree) if isinstance(n, (ast.FunctionDef, ast.AsyncFunctionDef))]:
+        for par in list(ast.walk(fn)):
+            for fld in ('body', 'orelse', 'finalbody'):
+                blk = getattr(par, fld, None)
+                if not isinstance(blk, list):
+                    continue
+                k = 0
+                while k < len(blk):
+                    w = blk[k]
+                    k += 1
+                    if not (isinstance(w, ast.While) and not w.orelse and isinstance(w.test, ast.Compare) and len(w.test.ops) == 1
+                            and isinstance(w.test.ops[0], (ast.LtE, ast.Lt)) and isinstance(w.test.left, ast.Name) and len(w.body) >= 2):
+                        continue
+                    i = w.test.left.id
+                    bound = w.test.comparators[0]
+                    inc = w.body[-1]
+                    if not (isinstance(inc, ast.AugAssign) and isinstance(inc.op, ast.Add) and isinstance(inc.target, ast.Name) and inc.target.id == i
+                            and isinstance(inc.value, ast.Constant) and inc.value.value == 1):
+                        continue
+                    body = w.body[:-1]
+                    if any(isinstance(n, (ast.Continue, ast.Break, ast.Return, ast.Yield, ast.YieldFrom)) for b in body for n in ast.walk(b)):
+                        continue
+                    stored = {n.id for b in body for n in ast.walk(b) if isinstance(n, ast.Name) and isinstance(n.ctx, (ast.Store, ast.Del))}
+                    bound_names = {n.id for n in ast.walk(bound) if isinstance(n, ast.Name)}
+                    if i in stored or i in bound_names or (stored & bound_names) or not pure(bound):
+                        continue
+                    # attribute / item stores in the body could change what the bound reads
+                    call_funcs = {id(n.func) for n in ast.walk(bound) if isinstance(n, ast.Call)}
+                    if any(isinstance(n, (ast.Attribute, ast.Subscript)) and id(n) not in call_funcs for n in ast.walk(bound)):
+                        continue
+                    # the initialisation: the closest preceding statement of the block, `i = A`
+                    init_at = None
+                    for j in range(k - 2, -1, -1):
+                        st = blk[j]
+                        if isinstance(st, ast.Assign) and len(st.targets) == 1 and isinstance(st.targets[0], ast.Name) and st.targets[0].id == i:
+                            init_at = j
+                            break
+                        if any(isinstance(n, ast.Name) and n.id == i for n in ast.walk(st)):
+                            break
+                    if init_at is None:
+                        continue
+                    # the counter is not read after the loop (anywhere later in the function, or earlier inside an enclosing loop)
+                    inside = {id(n) for n in ast.walk(w)} | {id(n) for n in ast.walk(blk[init_at])}
+                    if any(isinstance(n, ast.Name) and n.id == i and id(n) not in inside for n in ast.walk(fn)):
+                        continue
+                    start = blk[init_at].value
+                    stop = bound if isinstance(w.test.ops[0], ast.Lt) else ast.BinOp(left=bound, op=ast.Add(), right=ast.Constant(value=1))
+                    loop = ast.For(target=ast.Name(id=i, ctx=ast.Store()), iter=ast.Call(func=ast.Name(id='range', ctx=ast.Load()), args=[start, stop], keywords=[]),
+                                   body=body, orelse=[], type_comment=None)
+                    ast.copy_location(loop, w)
+                    ast.fix_missing_locations(loop)
+                    blk[k - 1] = loop
+                    del blk[init_at]
+                    k -= 1
+                    count += 1
+    return count
 
 
 def merge_twin_branches(tree):
@@ -903,6 +1127,8 @@ def normalize(tree):
     n.counts['generators_to_loops'] = generators_to_loops(tree)
     n.counts['any_counters'] = any_to_loop_and_counters_to_enumerate(tree)
     n.counts['dict_updates_merged'] = merge_dict_updates(tree)
+    n.counts['loop_exit_hoisted'] = hoist_loop_exit_assignments(tree)
+    n.counts['counting_while'] = counting_while_to_for(tree)
     n.counts['twin_branches'] = merge_twin_branches(tree)
     n.counts['loop_to_comprehension'] = loops_to_comprehensions(tree)
     n.counts['enumerate_dropped'] = drop_unused_enumerate(tree)
